@@ -367,7 +367,7 @@ class Gen:
                       'map', 'reduce', 'partition', 'interleave', 'interpose', 'range', 'distinct', 'frequencies', 'merge',
                       'zipcoll', 'min', 'max', 'min-of', 'max-of', 'sum', 'product', 'reverse', 'reverse!', 'flatten',
                       'take', 'drop', 'partition', 'range', 'find', 'index-of', 'reduce2', 'map3',
-                      'keep', 'mapcat', 'count2', 'group-by', 'interpose', 'interleave', 'frequencies'])
+                      'keep', 'mapcat', 'count2', 'group-by', 'interpose', 'interleave', 'frequencies', 'mapvar', 'mapvar'])
         kind = r.choice(['(', '['])
         if f == 'find':
             return (f, [F(r.choice(['even', 'odd', 'pos', 'neg?', 'lt3', 'true', 'false'])), (kind, self.ints())])
@@ -377,6 +377,14 @@ class Gen:
             if r.chance(1, 2):
                 return (f, [F(r.choice(one)), (kind, self.ints(r.below(8), -3, 9))])
             return (f, [F(r.choice(two)), (kind, self.ints(r.below(7), -3, 9)), (r.choice(['(', '[']), self.ints(r.below(7), -3, 9))])
+        if f == 'mapvar':
+            # map-n 2 / map-n 3 / the general branch of map-template (>= 4 extra sequences), every aggregator
+            g = r.choice(['map', 'mapcat', 'keep', 'count'])
+            name = r.choice({'map': ['vsum', 'vlast'], 'mapcat': ['vtup', 'vrev'], 'keep': ['vsumpos', 'vsum'], 'count': ['vasc', 'vtrue']}[g])
+            nseq = r.choice([1, 2, 3, 3, 4, 4, 5, 5, 6, 7])
+            base = r.below(6)
+            seqs = [(r.choice(['(', '[']), self.ints(max(0, base + r.choice([0, 0, 0, 1, 2, -1])), -3, 9)) for _ in range(nseq)]
+            return (g, [F(name)] + seqs)
         if f == 'count2':
             return ('count', [F(r.choice(['lt', 'gt', 'le', 'ge', 'ne', 'mod4lt', 'true', 'false'])), (kind, self.ints(r.below(7), -3, 9)),
                               (r.choice(['(', '[']), self.ints(r.below(7), -3, 9))])
@@ -406,7 +414,7 @@ class Gen:
             x = self.seqv() if r.chance(1, 2) else self.bytesv(r.below(10))
             return (f, [I(r.choice([1, 2, 3, 4, len(x[1]), len(x[1]) + 1, max(1, len(x[1]) - 1)])), x])
         if f == 'interleave':
-            return (f, [self.seqv(elems=[self.scalar() for _ in range(r.below(5))]) for _ in range(r.choice([1, 2, 2, 3, 4, 5]))])
+            return (f, [self.seqv(elems=[self.scalar() for _ in range(r.below(5))]) for _ in range(r.choice([1, 2, 2, 3, 4, 5, 6, 7]))])
         if f == 'interpose':
             return (f, [self.scalar(), self.seqv()])
         if f == 'range' and r.chance(1, 3):
